@@ -12,10 +12,13 @@
      inline fragments": each named fragment is visited at most once per collected set
      (visited set), so collection terminates on cyclic spreads;
    - the recursion FieldsInSetCanMerge(mergedSet) / SameResponseShape on sub-selections is read
-     as "a conflict exists iff a finite chain of nested field pairs ends in a direct conflict":
-     a pair (field A, field B, mode) that is already being compared on the current chain is not
-     compared again.  On documents without fragment cycles no pair ever repeats on a chain, so
-     the function is then literally the specification's algorithm. *)
+     as "a conflict exists iff a finite chain of nested field pairs ends in a direct conflict",
+     i.e. as a search for a reachable pair that conflicts directly: a pair (field A, field B,
+     mode) that was already examined during the check of the current selection set is not
+     examined again (visited set).  The verdict of a pair does not depend on how it was reached,
+     so on documents without fragment cycles this is the specification's recursion with repeated
+     work removed (the literal recursion is exponential in the nesting depth and does not
+     terminate on cyclic spreads). *)
 From GV Require Import Base.Prelude.
 
 (* ---------------------------------------------------------------- schema *)
@@ -76,7 +79,7 @@ Record fld := mkFld { f_id : N; f_rname : N; f_name : N; f_args : list (N * valu
 Inductive sels :=
 | SelNil
 | SelField (f : fld) (sub : sels) (rest : sels)
-| SelInline (tc : option N) (sub : sels) (rest : sels)
+| SelInline (iid : N) (tc : option N) (sub : sels) (rest : sels)
 | SelSpread (name : N) (rest : sels).
 
 Record fragdef := mkFrag { fr_name : N; fr_type : N; fr_body : sels }.
@@ -168,7 +171,7 @@ Fixpoint collect_go (frags : list fragdef) (rec : collect_fn) (parent : N) (ss :
   | SelNil => Some st
   | SelField f sub rest =>
       collect_go frags rec parent rest (fst st, mkEntry parent f sub :: snd st)
-  | SelInline tc sub rest =>
+  | SelInline _ tc sub rest =>
       match collect_go frags rec (match tc with Some t => t | None => parent end) sub st with
       | None => None
       | Some st' => collect_go frags rec parent rest st'
@@ -203,31 +206,45 @@ Definition vjoin (a b : verdict) : verdict :=
   | VNo, VNo => VNo
   end.
 
-(* every unordered pair of members of [l] *)
-Fixpoint pairs {A} (f : A -> A -> verdict) (l : list A) : verdict :=
+(* every unordered pair of members of [l], threading a state *)
+Fixpoint row {A S} (f : S -> A -> verdict * S) (st : S) (l : list A) : verdict * S :=
   match l with
-  | [] => VNo
-  | x :: r => vjoin (fold_right (fun y acc => vjoin (f x y) acc) VNo r) (pairs f r)
+  | [] => (VNo, st)
+  | y :: r =>
+    let '(v1, st1) := f st y in
+    let '(v2, st2) := row f st1 r in
+    (vjoin v1 v2, st2)
+  end.
+
+Fixpoint pairs {A S} (f : S -> A -> A -> verdict * S) (st : S) (l : list A) : verdict * S :=
+  match l with
+  | [] => (VNo, st)
+  | x :: r =>
+    let '(v1, st1) := row (fun st y => f st x y) st r in
+    let '(v2, st2) := pairs f st1 r in
+    (vjoin v1 v2, st2)
   end.
 
 (* ---------------------------------------------------------------- FieldsInSetCanMerge *)
-Definition pkey : Type := (N * N * bool)%type.
+Notation pkey := (N * N * bool)%type (only parsing).
 Definition pkey_eqb (a b : pkey) : bool :=
   (fst (fst a) =? fst (fst b)) && (snd (fst a) =? snd (fst b)) && Bool.eqb (snd a) (snd b).
 Definition pkey_mem (k : pkey) (l : list pkey) : bool := existsb (pkey_eqb k) l.
 
 Definition same_rname (x y : entry) : bool := f_rname (e_fld x) =? f_rname (e_fld y).
 
-Definition conf_fn : Type := list pkey -> bool -> entry -> entry -> verdict.
+(* visited pairs in, verdict and visited pairs out *)
+Definition conf_fn : Type := list pkey -> bool -> entry -> entry -> verdict * list pkey.
 
 (* One pair of fields with the same response name.
    [shape_only = true]: only SameResponseShape is required (an enclosing pair had parent
    types that are different Object types); otherwise the full FieldsInSetCanMerge conditions. *)
 Definition conf_step (s : schema) (frags : list fragdef) (cfuel : nat) (rec : conf_fn) : conf_fn :=
-  fun path shape_only a b =>
+  fun vis shape_only a b =>
     let k := (f_id (e_fld a), f_id (e_fld b), shape_only) in
-    if pkey_mem k path then VNo
+    if pkey_mem k vis then (VNo, vis)
     else
+      let vis1 := k :: vis in
       match field_type s (e_parent a) (f_name (e_fld a)),
             field_type s (e_parent b) (f_name (e_fld b)) with
       | Some ta, Some tb =>
@@ -236,26 +253,26 @@ Definition conf_step (s : schema) (frags : list fragdef) (cfuel : nat) (rec : co
                          && is_object s (e_parent a) && is_object s (e_parent b)) in
         if negb exclusive && (negb (f_name (e_fld a) =? f_name (e_fld b))
                               || negb (args_same (f_args (e_fld a)) (f_args (e_fld b))))
-        then VConflict
-        else if shape_conflict s ta tb then VConflict
+        then (VConflict, vis1)
+        else if shape_conflict s ta tb then (VConflict, vis1)
         else
           (* mergedSet = selection set of fieldA + selection set of fieldB, fragments visited once *)
           match collect frags cfuel (named ta) (e_sub a) ([], []) with
-          | None => VFuel
+          | None => (VFuel, vis1)
           | Some st1 =>
             match collect frags cfuel (named tb) (e_sub b) st1 with
-            | None => VFuel
+            | None => (VFuel, vis1)
             | Some st2 =>
-              pairs (fun x y => if same_rname x y then rec (k :: path) exclusive x y else VNo)
-                    (snd st2)
+              pairs (fun vis x y => if same_rname x y then rec vis exclusive x y else (VNo, vis))
+                    vis1 (snd st2)
             end
           end
-      | _, _ => VUntyped
+      | _, _ => (VUntyped, vis1)
       end.
 
 Fixpoint conf (s : schema) (frags : list fragdef) (cfuel : nat) (fuel : nat) : conf_fn :=
   match fuel with
-  | O => fun _ _ _ _ => VFuel
+  | O => fun vis _ _ _ => (VFuel, vis)
   | S f => conf_step s frags cfuel (conf s frags cfuel f)
   end.
 
@@ -265,7 +282,8 @@ Definition check_set (s : schema) (frags : list fragdef) (cfuel dfuel : nat) (pa
   match collect frags cfuel parent ss ([], []) with
   | None => VFuel
   | Some st =>
-    pairs (fun x y => if same_rname x y then conf s frags cfuel dfuel [] false x y else VNo) (snd st)
+    fst (pairs (fun vis x y => if same_rname x y then conf s frags cfuel dfuel vis false x y
+                               else (VNo, vis)) [] (snd st))
   end.
 
 (* "Let set be any selection set defined in the GraphQL document": walk every selection set
@@ -284,7 +302,7 @@ Fixpoint walk (s : schema) (chk : N -> sels -> verdict) (parent : N) (ss : sels)
                end
              end)
             (walk s chk parent rest)
-  | SelInline tc sub rest =>
+  | SelInline _ tc sub rest =>
       let p := match tc with Some t => t | None => parent end in
       vjoin (if is_composite s p then vjoin (chk p sub) (walk s chk p sub) else VUntyped)
             (walk s chk parent rest)
@@ -299,7 +317,7 @@ Fixpoint fids_sels (ss : sels) : list N :=
   match ss with
   | SelNil => []
   | SelField f sub rest => f_id f :: fids_sels sub ++ fids_sels rest
-  | SelInline _ sub rest => fids_sels sub ++ fids_sels rest
+  | SelInline _ _ sub rest => fids_sels sub ++ fids_sels rest
   | SelSpread _ rest => fids_sels rest
   end.
 
